@@ -14,6 +14,8 @@ A case: dict(cls="MC"|"BMP", init=None|[[name, value]...], ctl=dict(width, heigh
      | ["app", [pos...], [[name, value]...], [op...], intr]   (intr = null, or the name of the BaseException
                                    the connection raises while the block's stop command is being sent)
      | ["withcb", [[name, value]...], [op...], exc]   (a block whose before_close callback raises exc)
+     | ["callrefused", method, [pos...], [[name, value]...], "TimeoutError"|"FatalReturnCodeError"]
+     | ["ctxupdate", var, [[name, value]...]]   (v.update(...) on the kept Context object v, which is entered)
      | ["getargs", "clear"|"pop"|"update", [[name, value]...]]   (d = c.get_context_arguments(); d is edited)
    an "app" op may carry a 6th element: a variable number -- the application context is then created once
    (app = c.application(n)) and entered again on later uses
@@ -55,6 +57,7 @@ class HarnessInterrupt(BaseException):
 CAUGHT = (Exception, KeyboardInterrupt, SystemExit, HarnessInterrupt)     # what a "try" op catches
 RAISABLE = {"Exception": HarnessRaise, "KeyboardInterrupt": KeyboardInterrupt, "SystemExit": SystemExit,
             "HarnessInterrupt": HarnessInterrupt}
+REFUSE = {"next": None}              # SCPError class the connection raises on the next command handed to it
 INTERRUPT = {"next_stop": None}     # exception class the connection raises when the next stop signal is sent
 
 
@@ -158,6 +161,7 @@ class FakeConnection(object):
     def send_scp(self, buffer_size, x, y, p, cmd, arg1=0, arg2=0, arg3=0, data=b'', expected_args=3,
                  timeout=0.0):
         TRACE.append([self.ident, 0, enc(x), enc(y), enc(p), enc(cmd), enc(arg1), enc(arg2), enc(arg3)])
+        self._refuse()
         if INTERRUPT["next_stop"] is not None and cmd == int(consts.SCPCommands.signal) \
                 and isinstance(arg2, int) and (arg2 >> 16) & 0xff == int(consts.AppSignal.stop):
             exc, INTERRUPT["next_stop"] = INTERRUPT["next_stop"], None
@@ -166,14 +170,24 @@ class FakeConnection(object):
             return MODE["machine"].answer(self, x, y, int(cmd))
         return Reply(cmd if isinstance(cmd, int) else -1, arg2)
 
+    def _refuse(self):
+        if REFUSE["next"] is not None:
+            from rig.machine_control import scp_connection
+            name, REFUSE["next"] = REFUSE["next"], None
+            if name == "FatalReturnCodeError":
+                raise scp_connection.FatalReturnCodeError(0x88)        # one chip refuses one command
+            raise scp_connection.TimeoutError("no acknowledgement")
+
     def read(self, buffer_size, window_size, x, y, p, address, length_bytes):
         TRACE.append([self.ident, 1, enc(x), enc(y), enc(p), None, enc(address), enc(length_bytes), None])
+        self._refuse()
         if MODE["machine"] is not None:
             return MODE["machine"].answer(self, x, y, "read", address, length_bytes)
         return b"\0" * (length_bytes if isinstance(length_bytes, int) and 0 <= length_bytes < 1 << 20 else 0)
 
     def write(self, buffer_size, window_size, x, y, p, address, data):
         TRACE.append([self.ident, 2, enc(x), enc(y), enc(p), None, enc(address), enc(len(data)), None])
+        self._refuse()
 
     def close(self):
         self.closed = True
@@ -446,6 +460,25 @@ def run_case(case):
                 finally:
                     after = snapshot(c)
                     events.append(["stack", "exit", after[0], after[1]])
+            elif kind == "callrefused":
+                # the machine refuses the first command of this call: the SCPError travels outward
+                _, m, pos, kw, excname = op
+                a, k = args_of(m, pos, kw)
+                mark = len(TRACE)
+                err = None
+                REFUSE["next"] = excname
+                try:
+                    getattr(c, m)(*a, **k)
+                except Exception as e:
+                    err = e
+                finally:
+                    REFUSE["next"] = None
+                events.append(["call", m, TRACE[mark:], exc_name(err)])
+                if err is not None:
+                    raise err
+            elif kind == "ctxupdate":
+                # the public Context.update() of a kept Context object that is currently entered
+                kept[op[1]].update({k: materialise(cls, "__call__", k, v) for k, v in op[2]})
             elif kind == "getargs":
                 # a caller looks at the arguments in force and edits the dictionary it was handed
                 d = c.get_context_arguments()
